@@ -27,6 +27,7 @@ type Env struct {
 	depth  int
 	skRoot string // identity of the clause instance being translated (stable skolem names)
 	skCnt  *int
+	callee bool // environment of a CALLEE's contract (its locals are not this function's)
 }
 
 type exprError struct{ msg string }
@@ -388,8 +389,76 @@ func (e *Env) ident(name string) Val {
 			}
 		}
 	}
+	// a name that no variable of the function under contract carries (any
+	// more): the contract is stale with respect to the code (e.g. a renamed
+	// local), which is a different thing from a variable that merely is not
+	// defined on this path
+	if e.t != nil && e.depth == 0 && !e.callee && !e.t.fnHasName(name) {
+		e.fail("stale identifier %s: the function has no variable of that name", name)
+	}
 	e.fail("unknown identifier %s", name)
 	return Val{}
+}
+
+// fnHasName: does the function under translation have a parameter, named
+// result, captured variable or local variable with this name?
+func (t *FnTrans) fnHasName(name string) bool {
+	if t.fnNames == nil {
+		t.fnNames = map[string]bool{}
+		fn := t.fn
+		for _, p := range fn.Params {
+			t.fnNames[p.Name()] = true
+		}
+		for _, fv := range fn.FreeVars {
+			t.fnNames[fv.Name()] = true
+		}
+		if res := fn.Signature.Results(); res != nil {
+			for i := 0; i < res.Len(); i++ {
+				t.fnNames[res.At(i).Name()] = true
+			}
+		}
+		for _, b := range fn.Blocks {
+			for _, in := range b.Instrs {
+				if d, ok := in.(*ssa.DebugRef); ok {
+					if id, ok := d.Expr.(*ast.Ident); ok {
+						t.fnNames[id.Name] = true
+					}
+				}
+				if a, ok := in.(*ssa.Alloc); ok && a.Comment != "" {
+					t.fnNames[a.Comment] = true
+				}
+			}
+		}
+		// source-level declarations (covers variables without a DebugRef)
+		if syn, ok := fn.Syntax().(ast.Node); ok && syn != nil {
+			ast.Inspect(syn, func(n ast.Node) bool {
+				if id, ok := n.(*ast.Ident); ok && id.Obj != nil && id.Obj.Kind == ast.Var {
+					t.fnNames[id.Name] = true
+				}
+				if as, ok := n.(*ast.AssignStmt); ok && as.Tok == token.DEFINE {
+					for _, l := range as.Lhs {
+						if id, ok := l.(*ast.Ident); ok {
+							t.fnNames[id.Name] = true
+						}
+					}
+				}
+				if rs, ok := n.(*ast.RangeStmt); ok {
+					for _, l := range []ast.Expr{rs.Key, rs.Value} {
+						if id, ok := l.(*ast.Ident); ok {
+							t.fnNames[id.Name] = true
+						}
+					}
+				}
+				if vs, ok := n.(*ast.ValueSpec); ok {
+					for _, id := range vs.Names {
+						t.fnNames[id.Name] = true
+					}
+				}
+				return true
+			})
+		}
+	}
+	return t.fnNames[name]
 }
 
 func (e *Env) loadPtr(p Val, elem types.Type) Val {
